@@ -6,6 +6,7 @@ wave = sys.argv[1]
 focus = {
  'core': 'Prefer a change inside the core machinery where the property allows it — the compile-time computation of the jump / stack / parent-index tables, the evaluator loops (Eval, TryEval and their helpers), the optimizer passes, the parser algorithms, config copying/registration — rather than flipping a constant in a table or editing a single built-in operator. Changes where two sites cooperate, or where only one of two sibling code paths is changed, are especially welcome.',
  'indirect': 'Prefer a change in code the property depends on only INDIRECTLY — a helper, predicate, constructor, option handler, lookup table builder, copy routine, classification function or error path that several callers share — or a NEW fast path / cache / early exit / pre-check added in front of existing logic and guarded by a condition that is almost always, but not always, equivalent to the slow path. Changes that need two cooperating edits (each harmless alone), or that only misbehave on the second use of some object (second Compile with a config, second Eval with a context, a config derived from another), or only for one of several aliases / notations / option combinations, are especially welcome. Avoid deleting a guard outright or flipping a single table constant.',
+ 'invariant': 'Prefer a change in a PRODUCER of some internal data structure or invariant that a distant CONSUMER relies on (node order, parent indexes, child counts, stack slots, jump targets, flag bits, key tables, token lists, cost fields, option maps): the producer change looks locally reasonable, the consumer is untouched, and only certain shapes make the consumer misbehave. Also welcome: off-by-one at capacity boundaries, integer width / overflow / truncation / sign handling, empty or singleton collections, Unicode versus byte lengths, dependence on map iteration order, aliasing of slices (append sharing a backing array), zero value versus absent entry, and a sibling code path (the other evaluator, the other notation, the other fetcher, event mode) that is not updated together with the one you change.',
  'value': 'Prefer a change that keeps the overall structure intact — every loop still runs to its end, every error is still propagated, every guard is still present — but makes some computed VALUE wrong in a rare case: an index or offset expression, an arithmetic/bit expression, an operand of a comparison, which of two similar variables is used, a value carried from one iteration to the next, an initial value, what is stored into a table versus what is later read from it. Also welcome: a wrong interplay between two features that are each right alone (event mode + an optimisation, infix + directives, config copying + a later registration, a cache + a second call), or a change to a rarely used branch of a helper shared by several callers.',
 }[sys.argv[2] if len(sys.argv) > 2 else 'core']
 tmpl = '''You are helping test a verification setup for the Go library github.com/onheap/eval (an S-expression / infix expression engine: lexer, parser, AST optimizer, flat stack-based evaluator with short-circuit jumps). You have your own scratch git worktree of the library at {wt} (a detached checkout; work ONLY inside that directory; do not read or touch /verif or /repo).
